@@ -391,9 +391,6 @@ func honestRangeMixes(r *vcore.Run) {
 
 func genLkShape(rng *rand.Rand, size, kind, nQ int, interleave bool, nTables int, constIdx bool) *lkShape {
 	sh := &lkShape{nTables: nTables, useSum: rng.IntN(2) == 0}
-	type pend struct {
-		op lkOp
-	}
 	var inserts, lookups []lkOp
 	for t := 0; t < nTables; t++ {
 		for i := 0; i < size; i++ {
@@ -430,10 +427,8 @@ func genLkShape(rng *rand.Rand, size, kind, nQ int, interleave bool, nTables int
 	}
 	// interleave, keeping at least one insert of a table before its first lookup
 	sh.ops = append(sh.ops, inserts[0])
-	rest := append(append([]lkOp{}, inserts[1:]...), lookups...)
-	// stable random merge preserving the relative order inside inserts and inside lookups
+	// random merge preserving the relative order inside inserts and inside lookups
 	ii, li := 1, 0
-	_ = rest
 	for ii < len(inserts) || li < len(lookups) {
 		takeIns := ii < len(inserts) && (li >= len(lookups) || rng.IntN(3) != 0)
 		if takeIns {
